@@ -25,6 +25,9 @@ Definition H_RENDER : nat := 0.         (* ScreenScheduler._process_screen_callb
 Definition H_CLOSE : nat := 1.          (* ScreenScheduler._close_screen_callback *)
 Definition H_RECEIVED : nat := 2.       (* InputThreadManager._input_received_handler *)
 Definition H_READY (n : nat) : nat := 10 + n.   (* InputHandler n ._input_received_handler *)
+(* application-defined signals (SignalHandler.connect / create_signal / emit of a UIScreen): class c, callback k *)
+Definition CLS_CUSTOM (c : nat) : nat := 5 + c.
+Definition H_CUSTOM (k : nat) : nat := 3 + k.     (* k < 7: handler ids 3..9 *)
 
 (* ---- what the application's screens do ---- *)
 Inductive ret_val := RProcessed | RRedraw | RClose | RDiscarded | RKey (s : str) | RNone.
@@ -41,6 +44,8 @@ Inductive scmd :=
 | SSysExit             (* sys.exit(1) from a callback (ErrorDialog.input does it) *)
 | SRedrawOther (s : nat)   (* screens[s].redraw(): a render signal whose source is ANOTHER screen *)
 | SCloseOther (s : nat)    (* screens[s].close(): a close signal whose source is another screen *)
+| SConnect (c k : nat)     (* self.connect(Custom_c, self.callback_k): register_signal_handler(Custom_c, callback_k, data=None) *)
+| SEmit (c : nat) (prio : Z)   (* self.emit(self.create_signal(Custom_c, prio)): a signal of class c whose source is this screen *)
 | SGetUserInput        (* self.get_user_input(...): blocking *)
 | SSetTypeAhead (b : bool)     (* from now on the user has (b = true) / has not typed ahead: with type-ahead a reader thread
                                   returns at once and its InputReceivedSignal is enqueued before start_input_thread returns *)
@@ -64,12 +69,14 @@ Record screen_spec := {
   sc_no_separator : bool;
   sc_skip_check : bool;            (* input_manager.skip_concurrency_check *)
   sc_pages : nat;                  (* "press ENTER to continue" prompts its content needs *)
-  sc_answer0 : answer              (* the screen's `answer` attribute before any callback ran (quit dialogs) *)
+  sc_answer0 : answer;             (* the screen's `answer` attribute before any callback ran (quit dialogs) *)
+  sc_custom : list (list scmd)     (* the screen's own signal callbacks: what callback k does when its signal is dispatched *)
 }.
 Definition default_spec : screen_spec :=
   {| sc_setup := []; sc_refresh := []; sc_show := []; sc_closed := []; sc_input := [];
      sc_input_default := ([], None); sc_prompt_none := false; sc_input_required := true;
-     sc_no_separator := false; sc_skip_check := false; sc_pages := 0; sc_answer0 := AnsNoAttr |}.
+     sc_no_separator := false; sc_skip_check := false; sc_pages := 0; sc_answer0 := AnsNoAttr;
+     sc_custom := [] |}.
 
 (* ---- state of the screen layer ---- *)
 Record sdata := { sd_id : nat; sd_scr : nat; sd_args : nat; sd_modal : bool }.     (* ScreenData; args: an id, 0 = None *)
@@ -123,6 +130,8 @@ Definition T_MARK := 14.  Definition T_STACK := 15.   Definition T_ASK := 16.
 Definition T_OP := 17. Definition T_REQ := 18. Definition T_ACTION := 19.
 (* T_WAITED [h; n; input_successful(); value is not None] value: what the application sees after h.wait_on_input() *)
 Definition T_WAITED := 20.
+(* T_CUSTOM [k; scr; 1 + source | 0]: callback k of screen scr is invoked for one of the application's own signals *)
+Definition T_CUSTOM := 21.
 (* stack primitives, T_STACK [kind; entry id; screen; args; modal]:  ScreenStack.append / add_first / pop *)
 Definition K_APPEND := 0. Definition K_ADD_FIRST := 1. Definition K_POP := 2.
 (* scheduler operations, T_OP [kind; screen; args], logged on entry *)
@@ -299,6 +308,9 @@ Section Screens.
     | SSysExit => PThrow XSysExit
     | SRedrawOther s => PApi (AEnqueue (render_spec (Some s)))
     | SCloseOther s => PApi (AEnqueue (close_spec s))
+    | SConnect c k => PApi (ARegHandler (CLS_CUSTOM c) (H_CUSTOM k) self)
+    | SEmit c p => PApi (AEnqueue {| sp_cls := CLS_CUSTOM c; sp_prio := p; sp_src := Some self; sp_a := 0; sp_b := false;
+                                    sp_data := [] |})
     | SGetUserInput => get_input_blocking self
     | SSetTypeAhead b => wr (fun u => u <| st_typeahead := b |>)
     | SHandlerAsk h skip => handler_ask self h skip
@@ -493,11 +505,17 @@ Section Screens.
                raise_exception_signal)).
 
   (* ---------------- the handler table ---------------- *)
+  (* a screen's own signal callback k, connected by screen `scr` (the registered data): callback(signal, data) *)
+  Definition custom_handler (k : nat) (sg : signal) (scr : nat) : sprog :=
+    ev T_CUSTOM [k; scr; match sg_src sg with Some x => S x | None => 0 end] ;;
+    run_cmds scr 0 (nth k (sc_custom (spec scr)) []).
+
   Definition screen_code (hid : nat) (sg : signal) (data : nat) : sprog :=
     if (hid =? H_RENDER)%nat then process_screen
     else if (hid =? H_CLOSE)%nat then close_screen (sg_src sg)       (* close_screen(signal.source) *)
     else if (hid =? H_RECEIVED)%nat then input_received_handler sg
     else if (10 <=? hid)%nat then input_ready_handler (hid - 10) sg
+    else if (3 <=? hid)%nat then custom_handler (hid - 3) sg data      (* H_CUSTOM k, registered with data = the screen *)
     else PRet.
 
   (* App.initialize(): ScreenScheduler registers its two handlers, InputThreadManager its own *)
